@@ -38,8 +38,9 @@ type world struct {
 	mu    sync.Mutex
 	clk   atomic.Int64
 	evs   []event
-	viol  bool
+	viol  atomic.Bool
 	gates map[int]chan struct{}
+	mgr   *concurrency.RunnerCloserManager
 }
 
 func (w *world) ev(kind string, id int, err error) int64 {
@@ -65,10 +66,9 @@ func (w *world) dump() []string {
 }
 
 func (w *world) violation(sig, msg string) {
-	if w.viol {
+	if w.viol.Swap(true) {
 		return
 	}
-	w.viol = true
 	rec.Violation(w.idx, sig, msg, map[string]any{"mode": w.mode, "topology": w.desc, "events": w.dump()})
 }
 
@@ -226,7 +226,7 @@ func TestCheck(t *testing.T) {
 	rec = mon.Open("C12")
 	defer rec.Close()
 	rec.Note("rule", "a case is one topology run against the real managers in a synctest bubble: 0-4 runners drawn from {nil, error, context.Canceled, wrapped Canceled, block-until-cancel (returning nil / an error / ctx.Err), gate-released (nil / error)} finishing in a seeded order, parent context cancelled or not; for the closer manager additionally 0-4 closers of the four accepted types with seeded durations and errors, grace period unset / generous / exceeded, Close before / during / after Run (repeated, concurrent), AddCloser during the run and AddCloser parked at its decision point while Run enters the closing phase, unsupported closer types. The sequence-stamped event log is judged offline. Non-trivial = at least one runner or closer; distinct = distinct topology description.")
-	rec.Note("require", []string{"runner.first_return_cancels_others", "runner.parent_cancel", "closer.fatal_fired", "closer.fatal_not_fired", "closer.close_during_run", "closer.close_before_run", "closer.concurrent_close", "closer.addcloser_during_run", "placed.addcloser_parked", "closer.unsupported_type_rejected", "join.errors_checked", "parent_end.cancel", "parent_end.deadline", "parent_end.cause", "racing.addcloser_accepted", "racing.addcloser_rejected"})
+	rec.Note("require", []string{"runner.first_return_cancels_others", "runner.parent_cancel", "closer.fatal_fired", "closer.fatal_not_fired", "closer.close_during_run", "closer.close_before_run", "closer.concurrent_close", "closer.addcloser_during_run", "placed.addcloser_parked", "closer.unsupported_type_rejected", "join.errors_checked", "closer.addcloser_from_a_running_closer_refused", "parent_end.cancel", "parent_end.deadline", "parent_end.cause", "racing.addcloser_accepted", "racing.addcloser_rejected"})
 	ps := plans()
 	rec.Planned(len(ps))
 	for idx, pl := range ps {
@@ -248,7 +248,7 @@ func TestCheck(t *testing.T) {
 }
 
 func finish(idx int, w *world, res mon.BubbleResult, nontrivial bool) {
-	if res.Deadlock != "" && !w.viol {
+	if res.Deadlock != "" && !w.viol.Load() {
 		w.violation("bubble-deadlock-or-leak/"+w.mode, res.Deadlock+"; goroutines left: "+strings.Join(res.Stacks, " || "))
 	} else if res.Panic != "" {
 		w.violation("panic/"+w.mode, res.Panic)
@@ -440,6 +440,10 @@ type cspec struct {
 	Dur  time.Duration
 	Err  bool
 	Gate bool // gate-driven instead of time-driven
+	// Reenter: while it runs, the closer asks its own manager to register one more closer (a component
+	// that hands its sub-resources to the manager whenever it is told to close): the call must come back
+	// - refused, the manager is closing - and shutdown must complete
+	Reenter bool
 }
 
 type ioCloser struct{ f func() error }
@@ -451,6 +455,15 @@ var _ io.Closer = ioCloser{}
 func (w *world) closer(j int, sp cspec, sent error) any {
 	body := func() error {
 		w.ev("cstart", j, nil)
+		if sp.Reenter && w.mgr != nil {
+			err := w.mgr.AddCloser(func() { w.ev("late-registered-closer-ran", j, nil) })
+			w.ev("reenter-ret", j, err)
+			if !errors.Is(err, concurrency.ErrManagerAlreadyClosed) {
+				w.violation("closer/addcloser-from-closer-not-refused", fmt.Sprintf("AddCloser called by closer %d during shutdown returned %v, expected ErrManagerAlreadyClosed", j, err))
+			} else {
+				rec.Count("closer.addcloser_from_a_running_closer_refused", 1)
+			}
+		}
 		if sp.Gate {
 			<-w.gate(100 + j)
 		} else if sp.Dur > 0 {
@@ -499,6 +512,7 @@ func runCloser(t *testing.T, idx int, rng *mon.RNG, placed bool) {
 	var maxDur time.Duration
 	for j := range cs {
 		cs[j] = cspec{Type: ctypes[rng.Intn(4)], Dur: time.Duration(rng.Intn(5)) * time.Second, Err: rng.Chance(1, 3), Gate: placed}
+		cs[j].Reenter = !placed && rng.Chance(1, 4)
 		if graceMode == "exceeded" && j == 0 {
 			cs[j].Dur = grace + time.Duration(1+rng.Intn(5))*time.Second
 		}
@@ -506,7 +520,7 @@ func runCloser(t *testing.T, idx int, rng *mon.RNG, placed bool) {
 			maxDur = cs[j].Dur
 		}
 		csents[j] = &sentinel{fmt.Sprintf("closer-sentinel-%d", j)}
-		cd = append(cd, fmt.Sprintf("%s/%v/err=%v", cs[j].Type, cs[j].Dur, cs[j].Err))
+		cd = append(cd, fmt.Sprintf("%s/%v/err=%v/reenter=%v", cs[j].Type, cs[j].Dur, cs[j].Err, cs[j].Reenter))
 	}
 	csents[nc] = &sentinel{"late-closer-sentinel"}
 	csents[nc+1] = &sentinel{"placed-closer-sentinel"}
@@ -537,6 +551,7 @@ func runCloser(t *testing.T, idx int, rng *mon.RNG, placed bool) {
 		log := logger.NewLogger("c12")
 		log.SetOutputLevel(logger.FatalLevel)
 		m := concurrency.NewRunnerCloserManager(log, gp, runners...)
+		w.mgr = m
 		m.WithFatalShutdown(func() { w.ev("fatal", 0, nil) })
 		accepted := map[int]bool{}
 		for j, sp := range cs {
